@@ -98,7 +98,7 @@ Proof.
      agrees (p <- payload_view (cs b) f;; _ <- icmp_is_valid p;; t0 <- icmp_type p;;
              f0 <- (if (t0 =? t) && g then _ <- icmp_is_valid p;; id0 <- echo_id p;; Ok (set_echo f (Some id0)) else Ok f);;
              Ok (set_id f0 id))
-            (if Nat.ltb (List.length (skipn (f_offP f) b)) 8 then RErr
+            (if Nat.ltb (List.length (skipn (f_offP f) b)) 8 then RErr RLen
              else ROk (with_l4 (proj f) id 0 0 None None (f_offP f)))).
   { intros id t g. rewrite payload_view_pos by (cbn; lia). cbn [bind set_id f_offP cs arr len].
     unfold icmp_is_valid, icmp_type, echo_id. cbn [len]. rewrite skipn_length.
